@@ -30,6 +30,14 @@ CORPUS = [
          new="\th32 ^= h32 >> 12\n\th32 *= prime3\n\th32 ^= h32 >> 16\n\n\treturn h32\n}\n\n// Portable version of ChecksumZero."),
     dict(name="C13-reset-keeps-buffer", kind="break", props=["C13"], file="internal/xxh32/xxh32zero.go",
          old="\txxh.totalLen = 0\n\txxh.bufused = 0\n}", new="\txxh.totalLen = 0\n}"),
+    # ---- Option closures (C09 / C17 / C18) ----
+    dict(name="C09-blocksize-accepts-8mb", kind="break", props=["C09"], file="options.go",
+         old="\t\tcase *Writer:\n\t\t\tsize := uint32(size)\n\t\t\tif !lz4block.Index(size).IsValid() {", new="\t\tcase *Writer:\n\t\t\tsize := uint32(size)\n\t\t\tif !lz4block.IsValid(size) {"),
+    dict(name="C18-creader-checksum-option-sets-block-checksum", kind="break", props=["C18"], file="options.go",
+         old="\t\tcase *CompressingReader:\n\t\t\tw.frame.Descriptor.Flags.ContentChecksumSet(flag)", new="\t\tcase *CompressingReader:\n\t\t\tw.frame.Descriptor.Flags.BlockChecksumSet(flag)"),
+    dict(name="C17-level-set-before-validation", kind="break", props=["C17"], file="options.go",
+         old="\t\tcase *Writer:\n\t\t\tswitch level {\n\t\t\tcase Fast, Level1, Level2, Level3, Level4, Level5, Level6, Level7, Level8, Level9:\n\t\t\tdefault:",
+         new="\t\tcase *Writer:\n\t\t\tw.level = lz4block.CompressionLevel(level)\n\t\t\tswitch level {\n\t\t\tcase Fast, Level1, Level2, Level3, Level4, Level5, Level6, Level7, Level8, Level9:\n\t\t\tdefault:"),
     # ---- C18 ----
     dict(name="C18-overflow-drops-a-byte", kind="break", props=["C18"], file="compressing_reader.go",
          old="wr.ov = append(wr.ov, p[count : ]...)", new="wr.ov = append(wr.ov, p[count+1 : ]...)"),
